@@ -4,6 +4,7 @@ import SimilarVerif.Lemmas.Capture
 import SimilarVerif.Lemmas.MyersTotal
 import SimilarVerif.Lemmas.CaptureExact
 import SimilarVerif.Lemmas.CaptureExactClock
+import SimilarVerif.Lemmas.UdiffSub
 /-!
 # C11 — every captured op carries exact positions in both sequences
 
@@ -232,5 +233,28 @@ example (alg : Alg) :=
 #print axioms capture_patience_exact_repaired
 #print axioms capture_exact_repaired_total
 #print axioms expired_deadline_raw_not_exact
+
+end SimilarVerif.C11
+
+namespace SimilarVerif.C11
+open SimilarVerif Spec UdiffP
+
+/-- **hunk extents for sub-range diffs** (every range start `os`, `ns`; `C05.header_counts_match` is the instance
+`os = ns = 0`): for every non-empty group `g` of `group_diff_ops` of a valid script with exact positions over the
+ranges `os..N`, `ns..M`, with `f` / `l` its first / last op, the extents `f.oStart..l.oEnd`, `f.nStart..l.nEnd` are
+ordered and inside the ranges, their lengths are the numbers of old- and new-side lines of the group, and the old /
+new indices of its changes are exactly `f.oStart, f.oStart+1, …` resp. `f.nStart, …` -/
+theorem hunk_extents_subrange (e : Nat → Nat → Bool) (ops : List Op) (n os ns N M : Nat)
+    (hw : Walk e os ns ops N M) (hx : Exact os ns ops) (g : List Op)
+    (hg : g ∈ (groupDiffOps ops n).filter fun g => !g.isEmpty) :
+    ∃ f l, g.head? = some f ∧ g.getLast? = some l ∧
+      os ≤ f.oStart ∧ f.oStart ≤ l.oEnd ∧ l.oEnd ≤ N ∧ ns ≤ f.nStart ∧ f.nStart ≤ l.nEnd ∧ l.nEnd ≤ M ∧
+      (allChanges g).countP isOld = l.oEnd - f.oStart ∧
+      (allChanges g).countP isNew = l.nEnd - f.nStart ∧
+      (allChanges g).filterMap (·.oldIndex) = List.range' f.oStart (l.oEnd - f.oStart) ∧
+      (allChanges g).filterMap (·.newIndex) = List.range' f.nStart (l.nEnd - f.nStart) :=
+  UdiffSub.header_counts_sub e ops n os ns N M hw hx g hg
+
+#print axioms hunk_extents_subrange
 
 end SimilarVerif.C11
